@@ -61,7 +61,8 @@ func childLocker(args []string) int {
 		fmt.Println("ready")
 		in.ReadString('\n') // start signal
 		acquired, failed := 0, 0
-		for acquired < rounds && acquired+failed < rounds*200 {
+		start := time.Now()
+		for acquired < rounds && time.Since(start) < 20*time.Second {
 			lock, err := daemon.AcquireLock()
 			if err != nil {
 				failed++
@@ -337,7 +338,7 @@ func runLock(c *vlib.Ctx) error {
 	}
 	for k := 0; k < races; k++ {
 		cid++
-		in := raceIn{Kind: "race", N: 3 + c.Rand.Intn(4), Rounds: 15 + c.Rand.Intn(25), Kills: c.Rand.Intn(4), HoldMs: c.Rand.Intn(4), Seed: int(c.Rand.Int31())}
+		in := raceIn{Kind: "race", N: 3 + c.Rand.Intn(4), Rounds: 10 + c.Rand.Intn(20), Kills: c.Rand.Intn(4), HoldMs: c.Rand.Intn(4), Seed: int(c.Rand.Int31())}
 		recs := runRace(c, self, cid, in)
 		emit(recs)
 		st := recs[len(recs)-1]["stats"].(map[string]any)
